@@ -2,7 +2,7 @@
    Signals arrive as lists; the power tables are computed once from the signals with the model's
    [power] and handed to the table-level model functions (same composition as Model/Metrics.v,
    memoised through a list so that vm_compute does not recompute a power per use). *)
-From Coq Require Import String.
+From Coq Require Export String.   (* exported: the generated case files write string literals *)
 From Coq Require Import ZArith List PrimFloat Bool.
 From PB Require Import Ops FloatFun Run.Common Model.Metrics.
 Import ListNotations.
